@@ -290,7 +290,11 @@ pub fn run_with(gid: &str, input: &str, with_indented: bool, parse: impl Fn(Mode
     let again = parse(Mode::Plain);
     let _ = take_events();
 
-    let (advs, fails) = jverif(&verif);
+    // inputs of tens of kilobytes: the callback and cursor logs are not written out (results, comparisons and
+    // user-function calls are)
+    let huge = input.len() > 20000;
+    let (advs, fails) = if huge { (String::from("[]"), String::from("[]")) } else { jverif(&verif) };
+    let events = if huge { Vec::new() } else { events };
     let cps: Vec<String> = input.chars().map(|c| (c as u32).to_string()).collect();
     format!(
         "{{\"g\":{},\"inp\":[{}],\"ctx_calls\":{},\"res\":{},\"rec_same\":{},\"ind_same\":{},\"again_same\":{},\"rec\":{},\"ind\":{},\"events\":{},\"user\":{},\"advs\":{},\"fails\":{}}}",
